@@ -180,6 +180,18 @@ func checkSerial(o geojson.Object, typ string, depth int) (what, exp, got string
 	if s := o.JSON(); s != string(ref) {
 		return "changed-after-buffer-reuse", string(ref), s
 	}
+	if ok, d := refdoc.WellFormed(string(ref)); d > 9000 {
+		// at or beyond encoding/json's nesting limit: judged by the harness's
+		// own validator (which agrees with encoding/json on every shallower
+		// text either of them has seen); the leading member names the type
+		if !ok {
+			return "not-json", "one valid JSON value", trunc(string(ref))
+		}
+		if !strings.HasPrefix(string(ref), `{"type":"`+typ+`"`) {
+			return "wrong-type", typ, trunc(string(ref))
+		}
+		return "", "", ""
+	}
 	jv, err := refdoc.ParseJSON(string(ref))
 	if err != nil {
 		return "not-json", "one valid JSON value", string(ref) + " (" + err.Error() + ")"
@@ -402,15 +414,95 @@ func runC17(r *rt.Run) {
 			}
 		}
 	}
+	// foreign members nested just below, at and beyond 10000 levels (the limit
+	// of encoding/json, which neither Parse nor RFC 8259 has), in every member
+	// position; parsed and through NewFeature
+	deep := c17DeepDocs()
+	r.Bounds["deeply_nested_member_documents"] = len(deep)
+	for di, d := range deep {
+		var o geojson.Object
+		if d.members {
+			o = geojson.NewFeature(geojson.NewPoint(geometry.Point{X: 1, Y: 2}), d.text)
+		} else {
+			var err error
+			if o, err, _ = parseChecked(d.text, nil); err != nil || o == nil {
+				continue
+			}
+		}
+		w.States++
+		w.Evals++
+		w.Nontriv++
+		if what, exp, got := checkSerial(o, typeOf(o), 0); what != "" {
+			di := di
+			w.Fail("serial-deep-member-"+what, func() (rt.Case, string, string) {
+				return rt.Case{Kind: "serial", Op: "Deep", X: map[string]string{"what": what, "doc": fmt.Sprint(di), "name": d.name}}, trunc(exp), trunc(got)
+			})
+		}
+	}
 	w.Flush()
 	r.Sample(map[string]any{"constructor": "NewPolygon", "ordinates": "base ring with NaN at slot 3 and -Inf at slot 9", "prefix_len": 100, "spare": 1})
 	r.Sample(map[string]any{"constructor": "NewFeature", "members": c17Members[6]})
 	_ = strings.Contains
 }
 
+type c17Deep struct {
+	name, text string
+	members    bool // text is the member text of NewFeature, not a document
+}
+
+func c17DeepDocs() []c17Deep {
+	var out []c17Deep
+	for _, depth := range []int{9999, 10000, 10001, 20000} {
+		nests := map[string]string{
+			"arrays":  strings.Repeat("[", depth) + strings.Repeat("]", depth),
+			"objects": strings.Repeat(`{"a":`, depth) + "1" + strings.Repeat("}", depth),
+			"mixed":   strings.Repeat(`[{"a":`, depth/2) + `"x"` + strings.Repeat("}]", depth/2),
+		}
+		for _, kind := range []string{"arrays", "objects", "mixed"} {
+			v := nests[kind]
+			pt := `{"type":"Point","coordinates":[1,2]}`
+			docs := map[string]string{
+				"geometry-member":    `{"type":"Point","coordinates":[1,2],"deep":` + v + `}`,
+				"line-member-first":  `{"deep":` + v + `,"type":"LineString","coordinates":[[1,2],[3,4]]}`,
+				"feature-properties": `{"type":"Feature","geometry":` + pt + `,"properties":` + v + `}`,
+				"feature-id":         `{"type":"Feature","geometry":` + pt + `,"id":` + v + `,"properties":{}}`,
+				"feature-member":     `{"type":"Feature","geometry":` + pt + `,"properties":{},"deep":` + v + `}`,
+				"feature-geometry":   `{"type":"Feature","geometry":{"type":"Point","coordinates":[1,2],"deep":` + v + `},"properties":{}}`,
+				"collection-member":  `{"type":"FeatureCollection","features":[],"deep":` + v + `}`,
+				"child-member":       `{"type":"GeometryCollection","geometries":[{"type":"Point","coordinates":[1,2],"deep":` + v + `}]}`,
+			}
+			for _, pos := range []string{"geometry-member", "line-member-first", "feature-properties", "feature-id", "feature-member", "feature-geometry", "collection-member", "child-member"} {
+				out = append(out, c17Deep{fmt.Sprintf("%s/%s/%d", pos, kind, depth), docs[pos], false})
+			}
+			out = append(out, c17Deep{fmt.Sprintf("NewFeature-properties/%s/%d", kind, depth), `{"properties":` + v + `}`, true})
+			out = append(out, c17Deep{fmt.Sprintf("NewFeature-member/%s/%d", kind, depth), `{"id":1,"deep":` + v + `}`, true})
+		}
+	}
+	return out
+}
+
 func evalC17(c *rt.Case) (bool, string, string, error) {
 	if c.Kind != "serial" {
 		return false, "", "", fmt.Errorf("not mine")
+	}
+	if c.Op == "Deep" {
+		var di int
+		fmt.Sscan(c.X["doc"], &di)
+		deep := c17DeepDocs()
+		if di < 0 || di >= len(deep) {
+			return false, "", "", fmt.Errorf("bad index")
+		}
+		var o geojson.Object
+		if deep[di].members {
+			o = geojson.NewFeature(geojson.NewPoint(geometry.Point{X: 1, Y: 2}), deep[di].text)
+		} else {
+			var err error
+			if o, err, _ = parseChecked(deep[di].text, nil); err != nil || o == nil {
+				return false, "", "", nil
+			}
+		}
+		what, exp, got := checkSerial(o, typeOf(o), 0)
+		return what != "", trunc(exp), what + ": " + trunc(got), nil
 	}
 	for _, t := range c17Templates {
 		if t.name == c.Op && len(c.Nums) == t.nOrd && c.X["geom"] == "" {
